@@ -1890,6 +1890,11 @@ class Identifier(str):
     def __hash__(self) -> int:
         return super().__hash__()
 
+    def __getnewargs_ex__(self) -> tuple[tuple[str], dict[str, object]]:
+        # `token` is a required keyword argument of __new__. Without this, a pickled
+        # template can be dumped but not loaded.
+        return ((str(self),), {"token": self.token})
+
 
 def parse_identifier(token: TokenT) -> Identifier:
     """Parse _token_ as an identifier."""
